@@ -505,4 +505,48 @@ theorem outerTile_addrDim (cur rem : Nat) (t : List SStride) (ht : ∀ x ∈ t, 
   show cur * ((prodB t * q + i) / prodB t) + addrIn t (prodB t * q + i) = cur * q + addrDim t i
   rw [addrIn_mul_add, Nat.mul_add_div hP, Nat.div_eq_of_lt hi, Nat.add_zero, addrDim_eq_addrIn t i hi]
 
+/-- `i` is an index inside a tile and tile number `q` lies inside the shape, in every dimension -/
+def TileIn : SLayout → List Nat → List Nat → List Nat → Prop
+  | [], [], [], [] => True
+  | t :: ts, sh :: shs, q :: qs, i :: is => i < prodB t ∧ (q + 1) * prodB t ≤ sh ∧ TileIn ts shs qs is
+  | _, _, _, _ => False
+
+theorem addr_cons (t : List SStride) (ts : SLayout) (p : Nat) (ps : List Nat) :
+    addr (t :: ts) (p :: ps) = addrDim t p + addr ts ps := rfl
+
+/-- the whole layout: element `i` of tile `q` sits at the address of the first element of the tile plus the address
+of `i` under the tile layout -/
+theorem outerTiles_addr : ∀ (l : SLayout) (shape : List Nat) (cur : Nat) (q i : List Nat),
+    (∀ t ∈ l, ∀ x ∈ t, 0 < x.bound) → TileIn l shape q i →
+    addr (outerTiles l shape cur) (tilePoint l q i) = addr (outerTiles l shape cur) (tileBase l q) + addr l i
+  | [], [], _, [], [], _, _ => rfl
+  | [], [], _, [], _ :: _, _, h => h.elim
+  | [], [], _, _ :: _, _, _, h => h.elim
+  | [], _ :: _, _, _, _, _, h => by cases h
+  | t :: ts, [], _, _, _, _, h => by cases h
+  | t :: ts, sh :: shs, _, [], _, _, h => by cases h
+  | t :: ts, sh :: shs, _, q :: qs, [], _, h => by cases h
+  | t :: ts, sh :: shs, cur, q :: qs, i :: is, hpos, h => by
+    obtain ⟨hi, hq, hrest⟩ := h
+    have ht : ∀ x ∈ t, 0 < x.bound := hpos t (by simp)
+    have hts : ∀ t' ∈ ts, ∀ x ∈ t', 0 < x.bound := fun t' ht' => hpos t' (by simp [ht'])
+    have hP := prodB_pos t ht
+    simp only [outerTiles, tilePoint, tileBase]
+    split
+    next hrem =>
+      rw [addr_cons, addr_cons, addr_cons, outerTile_addrDim cur _ t ht q i hi,
+        outerTiles_addr ts shs _ qs is hts hrest]
+      have h0 := outerTile_addrDim cur (sh / prodB t) t ht q 0 hP
+      rw [Nat.add_zero, addrDim_zero, Nat.add_zero] at h0
+      rw [h0]
+      omega
+    next hrem =>
+      have hq0 : q = 0 := by
+        have : q + 1 ≤ sh / prodB t := (Nat.le_div_iff_mul_le hP).mpr hq
+        omega
+      subst hq0
+      rw [addr_cons, addr_cons, addr_cons, outerTiles_addr ts shs _ qs is hts hrest]
+      simp only [Nat.mul_zero, Nat.zero_add, addrDim_zero]
+      omega
+
 end SnaxVerif.Casts
